@@ -16,3 +16,17 @@ func debugRuntimePanic(in *Interp, msg string) {
 	}
 	fmt.Fprintln(os.Stderr, "VERIF-PRINT: runtime panic at", in.pos(), ":", msg)
 }
+
+// debugUnwind: with VERIF_PRINT set, every interpreted frame an "unsupported" or a runtime panic
+// unwinds through is named - a call stack of the interpreted program.
+func debugUnwind(fr *frame, r any) {
+	if !debugPrintOn || fr == nil || fr.fn == nil {
+		return
+	}
+	switch x := r.(type) {
+	case unsupported:
+		fmt.Fprintln(os.Stderr, "VERIF-PRINT:   unsupported", x.what, "unwinds", fr.fn.String())
+	case targetPanic:
+		fmt.Fprintln(os.Stderr, "VERIF-PRINT:   panic unwinds", fr.fn.String())
+	}
+}
